@@ -2,6 +2,7 @@
 from __future__ import annotations
 
 import ast
+import re
 from typing import Dict, List, Optional
 
 from sa.paths import Path, U, strip_v
@@ -75,6 +76,28 @@ def rule_object(ctx: Ctx) -> None:
             continue
         seen.add("ego" if base else "map")
         calls = [e for e in p.effects if e.kind == "call" and e.name == "get_past_for_agent"]
+        lp = [e for e in p.effects if e.kind == "loop"]
+        ctx.require(len(lp) == 1, "_get_tracking_data: record loop not found")
+        it = S(lp[0].text)
+        memo = re.match(r"^(\w+)\[(.+)\]$", it)
+        if memo is not None and memo.group(1) in _module_level_names(ft.module.tree):
+            # memoised lookup: the records of THIS (instance, sample, horizon, frame) must be the ones reused -> the key must determine every argument
+            key = memo.group(2)
+            key_names = {n.id for n in ast.walk(ast.parse(key, mode="eval")) if isinstance(n, ast.Name)}
+            need = {"instance_token", "sample_token", "seconds"}
+            missing = sorted(need - key_names)
+            ctx.check(not missing, "C16-tracking", "_get_tracking_data", "memo-key", f"past records are reused from `{memo.group(1)}[{key[:80]}]`; the key omits {missing}, so the history looked up for one sample is handed to another "
+                      "(the history must be the poses the instance had before THIS sample)", fi=ft, expected="key determines instance_token, sample_token, seconds (and the frame)", found=key[:160])
+            ctx.check("in_agent_frame" in key_names or "frame_id" in key_names or "True" in key or "False" in key, "C16-tracking", "_get_tracking_data", "memo-key-frame", "the memo key does not determine the frame of the records", fi=ft)
+            for e in p.effects:
+                if e.kind == "store" and S(e.recv).startswith(memo.group(1) + "["):
+                    ctx.check(strip_v(S(e.recv)) == strip_v(it) and S(e.value).startswith("helper.get_past_for_agent("), "C16-tracking", "_get_tracking_data", "memo-store", f"the memo stores `{S(e.value)[:60]}` under `{S(e.recv)[:80]}` but reads `{it[:80]}`", fi=ft)
+            if not calls:
+                continue
+        else:
+            ctx.require(len(calls) == 1, "_get_tracking_data: helper.get_past_for_agent not called once")
+            itn = lp[0].value
+            ctx.check(isinstance(itn, ast.Call) and S(itn.func) == "helper.get_past_for_agent", "C16-tracking", "_get_tracking_data", f"records-iterated:{'ego' if base else 'map'}", f"the history is built from `{it[:100]}`; expected the records returned by helper.get_past_for_agent for this sample", fi=ft)
         ctx.require(len(calls) == 1, "_get_tracking_data: helper.get_past_for_agent not called once")
         kw = {k: S(v) for k, v in calls[0].kwargs.items()}
         want = {"instance_token": "instance_token", "sample_token": "sample_token", "seconds": "seconds", "in_agent_frame": "True" if base else "False", "just_xy": "False"}
@@ -91,6 +114,16 @@ def rule_object(ctx: Ctx) -> None:
                 ctx.check(ap.get(k) == w, "C16-tracking", "_get_tracking_data", f"record:{k}:{'ego' if base else 'map'}", f"{k} receives `{ap.get(k)}`; expected `{w}`", fi=ft)
         ctx.check(S(p.retval) and [strip_v(S(x)) for x in p.retval.elts] == ["past_positions", "past_orientations", "past_shapes", "past_velocities"], "C16-tracking", "_get_tracking_data", f"returns:{'ego' if base else 'map'}", "return order changed", fi=ft)
     ctx.require(seen == {"ego", "map", "raise"}, f"_get_tracking_data: rows {sorted(seen)}")
+
+
+def _module_level_names(tree: ast.Module) -> set:
+    out = set()
+    for st in tree.body:
+        if isinstance(st, ast.Assign):
+            out |= {t.id for t in st.targets if isinstance(t, ast.Name)}
+        elif isinstance(st, ast.AnnAssign) and isinstance(st.target, ast.Name):
+            out.add(st.target.id)
+    return out
 
 
 def rule_frame(ctx: Ctx) -> None:
@@ -246,3 +279,5 @@ def run(ctx: Ctx) -> None:
     ctx.run(rule_frame)
     ctx.run(rule_boxes_and_pose)
     ctx.run(rule_dataset)
+    from rules import C14
+    ctx.run(C14.rule_converter)  # the label an object carries is the converter's case-normalised lookup of the annotation's category name
